@@ -852,7 +852,8 @@ impl Property for C20 {
          nested in one input and referenced from a sibling; self reference; injected faults: dangling reference, two inputs with \
          the same full name, nested definition clashing with an input, two nested definitions clashing; references to the null \
          namespace with a leading dot; inputs that are a fixed with a logical type; inputs called like a kind of schema; valid \
-         defaults on top-level record fields, also of reference type). The simulator - not \
+         defaults on top-level record fields, also of reference type; aliases on inputs and references by alias; now and then a \
+         chain of 17-28 inputs; half of the parses receive the inputs through an iterator with lower size hint 0). The simulator - not \
          RandomState - picks the next pending input through hook H2. Each case runs the baseline schedule (identity order, always the \
          first pending name) and the drawn schedule, judges both against the MultiParseModel computed from the JSON alone, compares \
          the returned schemas per input across the two schedules, and encodes a generated value with one schedule's schemas and \
@@ -880,7 +881,7 @@ impl Property for C20 {
         }
     }
     fn required_probes(&self) -> Vec<&'static str> {
-        vec!["probe.ref_to_type_nested_in_another_input", "probe.both_orderings_ok", "probe.cross_ordering_data_check", "probe.field_default_on_input"]
+        vec!["probe.ref_to_type_nested_in_another_input", "probe.both_orderings_ok", "probe.cross_ordering_data_check", "probe.field_default_on_input", "probe.input_with_alias"]
     }
 
     fn generate(&self, rng: &mut Rng, _run: u64, _tier: Tier) -> Option<Case> {
